@@ -3,7 +3,7 @@
 (* basis once per space (state variable tab), checks the identities of the basis, and prints the table as a ROW:   *)
 (* the oracle the real evaluation / interpolation / quadrature code is compared with (C07-C09, C10-C16).           *)
 EXTENDS BSplines, TLC, Json
-CONSTANTS MaxDeg, MaxCells, MaxBreak, Kinds
+CONSTANTS MaxDeg, MaxCells, MaxBreak, Kinds, UniformOnly, MinCells
 VARIABLES sp, tab, ints, stage
 \* strictly increasing integer sequences of length n+1 from 0 within 0..MaxBreak
 Incr(n) == {b \in [1..(n + 1) -> 0..MaxBreak] : b[1] = 0 /\ \A i \in 1..n : b[i] < b[i + 1]}
@@ -14,7 +14,7 @@ Admissible(p, kind, b) ==
 Init == /\ stage = 0 /\ tab = <<>> /\ ints = <<>>
         /\ sp \in [p : 1..MaxDeg, kind : Kinds, br : {<<0, 1>>}]
 Next == /\ stage = 0 /\ stage' = 1
-        /\ \E n \in 1..MaxCells : \E b \in Incr(n) :
+        /\ \E n \in MinCells..MaxCells : \E b \in (IF UniformOnly THEN {[i \in 1..(n + 1) |-> i - 1]} ELSE Incr(n)) :
               /\ Admissible(sp.p, sp.kind, b)
               /\ sp' = [sp EXCEPT !.br = b]
               /\ tab' = Table(b, sp.p, sp.kind)
